@@ -233,6 +233,20 @@ class Program:
                 from . import normalize
 
                 self.substituted_aliases = normalize.run(self)
+                # normalisation can uncover further helper calls (a helper handed around as a value, now in call position)
+                for rnd in (1, 2):
+                    for m in self.modules.values():
+                        m._symbols = None
+                    self._class_index = None
+                    self._subclasses = None
+                    again = Inliner(self)
+                    again.counter = 1000 * rnd
+                    again.run()
+                    if not again.inlined_calls:
+                        break
+                    self.inlined_calls = self.inlined_calls + again.inlined_calls
+                    self.transparent_helpers |= set(again.transparent)
+                    self.substituted_aliases += normalize.run(self)
         # document order of the ANALYSED tree (inlined code keeps the line numbers of where it came from, so line numbers do not order it)
         for m in self.modules.values():
             k = 0
